@@ -27,14 +27,14 @@ type Taint struct {
 	fields map[string]string // "T.f" -> origin
 	work   []ssa.Value
 	// indexes
-	fieldReads map[string][]ssa.Value         // "T.f" -> FieldAddr/Field values reading it (in scope)
-	callers    map[*ssa.Function][]*ssa.Call  // callee -> call sites (in scope)
+	fieldReads map[string][]ssa.Value        // "T.f" -> FieldAddr/Field values reading it (in scope)
+	callers    map[*ssa.Function][]*ssa.Call // callee -> call sites (in scope)
 	Hits       []SinkHit
-	IsSource   func(c *ssa.Call) string       // non-empty origin if the call's result is a source
-	IsSrcLoad  func(v ssa.Value) string        // loads of source globals / fields
+	IsSource   func(c *ssa.Call) string // non-empty origin if the call's result is a source
+	IsSrcLoad  func(v ssa.Value) string // loads of source globals / fields
 	IsSink     func(c ssa.CallInstruction, argIdx int) string
 	NoProp     func(c ssa.CallInstruction) bool // calls through which taint does not propagate
-	NoReturn   func(fn *ssa.Function) bool     // functions whose results are outside the observed set (e.g. event tags)
+	NoReturn   func(fn *ssa.Function) bool      // functions whose results are outside the observed set (e.g. event tags)
 	hitSeen    map[string]bool
 	prev       map[ssa.Value]ssa.Value
 	cur        ssa.Value
